@@ -6,6 +6,7 @@ import (
 	"strings"
 
 	"github.com/tobgu/qframe"
+	"github.com/tobgu/qframe/config/groupby"
 	"github.com/tobgu/qframe/config/newqf"
 	"pgregory.net/rapid"
 
@@ -34,7 +35,7 @@ type FrameSpec struct {
 // FrameBounds parameterises DrawFrame.
 type FrameBounds struct {
 	MaxCols, MaxRows int
-	MinRows          int
+	MinRows, MinCols int
 	NoCR             bool // strings never contain '\r' (CSV round trip)
 	NoInf            bool // floats finite or NaN only (JSON)
 	NoNaN            bool
@@ -44,11 +45,12 @@ type FrameBounds struct {
 	WithID           bool     // add a hidden unique int column "__id"
 	SmallDomain      bool     // few distinct values (grouping, filtering)
 	NoNullStr        bool
+	ManyEnumValues   bool // now and then an enum column with 32..70 distinct values
 }
 
 var intPool = []int{0, 1, -1, 2, 3, 7, 42, -42, 1 << 31, -(1 << 31), math.MaxInt64, math.MinInt64, 255, 256}
 var floatPool = []float64{0, math.Copysign(0, -1), 1, -1, 1.5, 0.1, 1e21, 1e-7, 123456789.125, math.MaxFloat64, math.SmallestNonzeroFloat64, 9007199254740993, 1e19, 9.3e18, -2.5e-300}
-var strPool = []string{"", "a", "b", "abc", "A", " ", " a ", "a,b", "\"", "\"\"", "a\"b", "\n", "a\nb", "é", "漢字", "\xff", "\xc3", "0", "1", "true", "null", "NaN", "'", "\\", "\t", "\x00", " ", "x\x01y", "ab", "a\x00", "$", "%", "é́"}
+var strPool = []string{"", "a", "b", "abc", "A", " ", " a ", "a,b", "\"", "\"\"", "a\"b", "\n", "a\nb", "é", "漢字", "\xff", "\xc3", "0", "1", "true", "null", "NaN", "'", "\\", "\t", "\x00", " ", "x\x01y", "ab", "a\x00", "$", "%", "é́", "\ufffd", "a\ufffdb", "\u2028", "\u2029", "\x7f", "\xed\xa0\x80", "\xf0\x9f\x98\x80", "\xc0\x80"}
 
 // canonical NaN and the NaN the x86 produces for 0.0/0.0 at run time
 var nanA = math.NaN()
@@ -67,6 +69,14 @@ func drawFloat(t *rapid.T, b FrameBounds) float64 {
 			return math.Inf(-1)
 		}
 		return math.Inf(1)
+	case k == 3 && !b.SmallDomain:
+		// exact powers of two across the whole exponent range (shortest-decimal
+		// boundary cases), either sign
+		f := math.Ldexp(1, rapid.IntRange(-1074, 1023).Draw(t, "pow2"))
+		if rapid.Bool().Draw(t, "neg") {
+			f = -f
+		}
+		return f
 	case k == 2 && !b.SmallDomain:
 		for {
 			f := math.Float64frombits(rapid.Uint64().Draw(t, "fbits"))
@@ -122,7 +132,11 @@ func drawName(t *rapid.T, b FrameBounds, i int, used map[string]bool) string {
 // DrawFrame draws a base frame.
 func DrawFrame(t *rapid.T, b FrameBounds) *FrameSpec {
 	fs := &FrameSpec{}
-	ncols := rapid.IntRange(1, b.MaxCols).Draw(t, "ncols")
+	minCols := 1
+	if b.MinCols > 1 {
+		minCols = b.MinCols
+	}
+	ncols := rapid.IntRange(minCols, b.MaxCols).Draw(t, "ncols")
 	fs.NRows = rapid.IntRange(b.MinRows, b.MaxRows).Draw(t, "nrows")
 	typesAllowed := b.Types
 	if typesAllowed == nil {
@@ -168,6 +182,9 @@ func DrawFrame(t *rapid.T, b FrameBounds) *FrameSpec {
 			if c.Type == "enum" {
 				// a small value set, declared (strict) or derived
 				nv := rapid.IntRange(1, 5).Draw(t, "nvals")
+				if b.ManyEnumValues && Rare(t, "manyvals", 12) {
+					nv = rapid.IntRange(32, 70).Draw(t, "nvalsmany")
+				}
 				seen := map[string]bool{}
 				for len(vals) < nv {
 					v := drawStr(t, b)
@@ -296,11 +313,26 @@ type ScrOp struct {
 }
 
 // DrawScramble draws 0..3 operations.
-func DrawScramble(t *rapid.T, fs *FrameSpec) Scramble {
+func DrawScramble(t *rapid.T, fs *FrameSpec) Scramble { return drawScramble(t, fs, 5) }
+
+// DrawIndexScramble draws index-changing operations only (the columns stay as generated).
+func DrawIndexScramble(t *rapid.T, fs *FrameSpec) Scramble { return drawScramble(t, fs, 2) }
+
+func drawScramble(t *rapid.T, fs *FrameSpec, maxKind int) Scramble {
 	var s Scramble
 	n := rapid.IntRange(0, 3).Draw(t, "nscramble")
 	for i := 0; i < n; i++ {
-		switch rapid.IntRange(0, 2).Draw(t, "scr") {
+		switch rapid.IntRange(0, maxKind).Draw(t, "scr") {
+		case 3:
+			// GroupBy + Aggregate: the result frame's columns come from
+			// different positions of the source frame
+			k := fs.Cols[rapid.IntRange(0, len(fs.Cols)-1).Draw(t, "aggkey")]
+			s.Ops = append(s.Ops, ScrOp{Kind: "agg", Col: k.Name, A: rapid.IntRange(0, 255).Draw(t, "aggpick")})
+		case 4:
+			s.Ops = append(s.Ops, ScrOp{Kind: "select", A: rapid.IntRange(0, 255).Draw(t, "selmask"), B: rapid.IntRange(0, 1).Draw(t, "selrev")})
+		case 5:
+			c := fs.Cols[rapid.IntRange(0, len(fs.Cols)-1).Draw(t, "cpcol")]
+			s.Ops = append(s.Ops, ScrOp{Kind: "copy", Col: c.Name})
 		case 0:
 			c := fs.Cols[rapid.IntRange(0, len(fs.Cols)-1).Draw(t, "scol")]
 			s.Ops = append(s.Ops, ScrOp{Kind: "sort", Col: c.Name, Reverse: rapid.Bool().Draw(t, "rev")})
@@ -319,7 +351,9 @@ func (s Scramble) Apply(qf qframe.QFrame) qframe.QFrame {
 	for _, op := range s.Ops {
 		switch op.Kind {
 		case "sort":
-			qf = qf.Sort(qframe.Order{Column: op.Col, Reverse: op.Reverse})
+			if qf.Contains(op.Col) { // an earlier select/aggregate may have dropped it
+				qf = qf.Sort(qframe.Order{Column: op.Col, Reverse: op.Reverse})
+			}
 		case "slice":
 			n := qf.Len()
 			a, b := op.A, n-op.B
@@ -330,6 +364,36 @@ func (s Scramble) Apply(qf qframe.QFrame) qframe.QFrame {
 				b = a
 			}
 			qf = qf.Slice(a, b)
+		case "agg":
+			qf = applyAgg(qf, op)
+		case "select":
+			names := qf.ColumnNames()
+			var keep []string
+			for i, n := range names {
+				if op.A>>(uint(i)%8)&1 == 1 {
+					keep = append(keep, n)
+				}
+			}
+			if len(keep) == 0 {
+				keep = names
+			}
+			if op.B == 1 {
+				for i, j := 0, len(keep)-1; i < j; i, j = i+1, j-1 {
+					keep[i], keep[j] = keep[j], keep[i]
+				}
+			}
+			qf = qf.Select(keep...)
+		case "copy":
+			// always a NEW column: overwriting a column produced by Aggregate
+			// trips over a known, out-of-scope defect (stale position
+			// bookkeeping, DESIGN.md §9)
+			dst := op.Col + "_cp"
+			for qf.Contains(dst) {
+				dst += "_cp"
+			}
+			if qf.Contains(op.Col) {
+				qf = qf.Copy(dst, op.Col)
+			}
 		case "keep":
 			r := core.NewSplitMix(op.Key)
 			n := qf.Len()
@@ -361,4 +425,47 @@ func DrawBigFrame(t *rapid.T, minRows, maxRows int) *FrameSpec {
 	}
 	fs.Cols = []ColSpec{a, b, c}
 	return fs
+}
+
+// applyAgg groups by op.Col (when present) and aggregates every other column
+// with a function that keeps its type: the result is an ordinary frame whose
+// columns were taken from other positions of the source frame.
+func applyAgg(qf qframe.QFrame, op ScrOp) qframe.QFrame {
+	if !qf.Contains(op.Col) || qf.Len() == 0 {
+		return qf
+	}
+	names, typs := qf.ColumnNames(), qf.ColumnTypes()
+	var aggs []qframe.Aggregation
+	// aggregate the columns in reverse order so that result positions differ from source positions
+	for i := len(names) - 1; i >= 0; i-- {
+		n := names[i]
+		if n == op.Col {
+			continue
+		}
+		switch string(typs[i]) {
+		case "int":
+			aggs = append(aggs, qframe.Aggregation{Fn: []interface{}{"sum", "max", "min"}[(op.A+i)%3], Column: n})
+		case "float":
+			aggs = append(aggs, qframe.Aggregation{Fn: []interface{}{"max", "min"}[(op.A+i)%2], Column: n})
+		case "bool":
+			aggs = append(aggs, qframe.Aggregation{Fn: "majority", Column: n})
+		case "string", "enum":
+			aggs = append(aggs, qframe.Aggregation{Fn: func(xs []*string) *string {
+				if len(xs) == 0 {
+					return nil
+				}
+				return xs[len(xs)-1]
+			}, Column: n})
+		}
+	}
+	res := qf.GroupBy(groupby.Columns(op.Col), groupby.Null(true)).Aggregate(aggs...)
+	if res.Err != nil {
+		return qf
+	}
+	// group order depends on the hash function: fix it so that the derived frame is reproducible
+	var orders []qframe.Order
+	for _, n := range res.ColumnNames() {
+		orders = append(orders, qframe.Order{Column: n})
+	}
+	return res.Sort(orders...)
 }
